@@ -225,8 +225,7 @@ def to_cobra(net, solver="glpk", name="net"):
             m.objective_direction = "min" if net["dir"] == "max" else "max"
         # the rollback re-appends the reactions at the end of model.reactions: put the documented order back
         if [r.id for r in m.reactions] != order:
-            m.reactions.sort(key=lambda r: order.index(r.id))
-            m.repair()
+            m.reactions.sort(key=lambda r: order.index(r.id))     # (DictList.sort rebuilds its own index)
     return m
 
 
